@@ -70,17 +70,33 @@ Fixpoint try_locks_from (t : table) (g : gid) (ls : list lk) (done : list (lk * 
          end
   end.
 Definition try_locks (t : table) (g : gid) (ls : list lk) : option (bool * table) := try_locks_from t g ls [].
-(* DB.TryRLocks *)
+(* DB.TryRLocks: first the locks the requester does not hold exclusively, in order (the first refusal undoes the earlier
+   ones); then the downgrades of the ones it does.  A downgrade is never refused, whereas putting an exclusive lock back
+   after a refusal further on can be (another owner may have taken the lock shared in between). *)
 Fixpoint try_rlocks_from (t : table) (g : gid) (ls : list lk) (done : list (lk * gstate)) : option (bool * table) :=
   match ls with
   | [] => Some (true, t)
-  | l :: r => match t_tryrlock t l g with
+  | l :: r => if gstate_eqb (gst (t l) g) Exclusive then try_rlocks_from t g r done
+              else match t_tryrlock t l g with
               | None => None
               | Some (false, t') => refuse t' g done
               | Some (true, t') => try_rlocks_from t' g r (done ++ [(l, gst (t l) g)])
               end
   end.
-Definition try_rlocks (t : table) (g : gid) (ls : list lk) : option (bool * table) := try_rlocks_from t g ls [].
+Fixpoint downgrade_all (t : table) (g : gid) (ls : list lk) : option table :=
+  match ls with
+  | [] => Some t
+  | l :: r => match t_tryrlock t l g with Some (_, t') => downgrade_all t' g r | None => None end
+  end.
+Definition try_rlocks (t : table) (g : gid) (ls : list lk) : option (bool * table) :=
+  match try_rlocks_from t g ls [] with
+  | Some (true, t') =>
+    match downgrade_all t' g (filter (fun l => gstate_eqb (gst (t l) g) Exclusive) ls) with
+    | Some t'' => Some (true, t'')
+    | None => None
+    end
+  | r => r
+  end.
 (* DB.Unlock db.go:3161 (the CommitWAL side effect lives in PageDB) *)
 Fixpoint unlock_all (t : table) (g : gid) (ls : list lk) : option table :=
   match ls with
@@ -183,3 +199,44 @@ Definition mismatches (cases : list (list lop * list nat)) : list nat :=
     | (ops, obs) :: rest => if list_eq_dec Nat.eq_dec (lcase_obs ops) obs then go (S i) rest else i :: go (S i) rest
     end in
   go 0 cases.
+
+(* ---- a request over several locks while the other owners keep going (C12: "a failed attempt changes nothing") ----
+   [prim]: one guard operation of some owner.  [sched]: what the others do before each step of the request and of its
+   rollback.  [skip_excl = true] is DB.TryRLocks after the repair; [false] the order before it (every lock in turn, an
+   exclusive one downgraded on the way and upgraded back by the rollback). *)
+Inductive prim := PX (h : gid) (l : lk) | PR (h : gid) (l : lk) | PU (h : gid) (l : lk).
+Definition prim_owner (p : prim) : gid := match p with PX h _ | PR h _ | PU h _ => h end.
+Definition prim_step (t : table) (p : prim) : option table :=
+  match p with
+  | PX h l => match t_trylock t l h with Some (_, t') => Some t' | None => None end
+  | PR h l => match t_tryrlock t l h with Some (_, t') => Some t' | None => None end
+  | PU h l => t_unlock t l h
+  end.
+Fixpoint run_prims (t : table) (ps : list prim) : option table :=
+  match ps with [] => Some t | p :: r => match prim_step t p with Some t' => run_prims t' r | None => None end end.
+Fixpoint restore_il (t : table) (g : gid) (done : list (lk * gstate)) (sched : list (list prim)) : option table :=
+  match done with
+  | [] => Some t
+  | (l, p) :: r =>
+    match run_prims t (hd [] sched) with
+    | None => None
+    | Some ta => match restore_one ta g l p with None => None | Some t' => restore_il t' g r (tl sched) end
+    end
+  end.
+Fixpoint try_rlocks_il (skip_excl : bool) (t : table) (g : gid) (ls : list lk) (sched : list (list prim))
+                       (done : list (lk * gstate)) : option (bool * table) :=
+  match ls with
+  | [] => Some (true, t)
+  | l :: r =>
+    match run_prims t (hd [] sched) with
+    | None => None
+    | Some ta =>
+      if skip_excl && gstate_eqb (gst (ta l) g) Exclusive then try_rlocks_il skip_excl ta g r (tl sched) done
+      else match t_tryrlock ta l g with
+           | None => None
+           | Some (false, t') => match restore_il t' g done (tl sched) with Some t'' => Some (false, t'') | None => None end
+           | Some (true, t') => try_rlocks_il skip_excl t' g r (tl sched) (done ++ [(l, gst (ta l) g)])
+           end
+    end
+  end.
+
